@@ -44,7 +44,7 @@ def main():
       na.append({'property_id': pid, 'reason': NOT_YET.get(pid, 'check not built yet in this round (design in DESIGN.md §5); not claimed until its Lean theorems and correspondence check exist')})
   man = {
     'version': 1,
-    'setup_cmd': 'cd lean && lake build PymtlVerif pvdriver',
+    'setup_cmd': 'cd lean && lake build PymtlVerif pv_bits pv_arb pv_queue pv_bstruct pv_vcd pv_mem pv_rv pv_hier pv_nets pv_meta pv_rtl pv_tc pv_sv pv_names',
     'hooks': {
       'guard': 'PYMTL3_VERIF',
       'enable': 'no hooks in /repo are needed so far: checks import pymtl3 from /repo (editable install in /venv) and observe public/semi-public attributes; ./vcheck exports PYMTL3_VERIF=1 for future use',
@@ -55,7 +55,7 @@ def main():
     'engines': [{
       'name': 'lean4-proof+correspondence', 'path': 'lean/ + harness/',
       'serves_properties': [c['property_id'] for c in checks],
-      'kind_free_text': 'Lean 4.33 theorems over hand-written executable models (lean/PymtlVerif/Props), native driver pvdriver, Python differential harness (harness/) running /repo in-process',
+      'kind_free_text': 'Lean 4.33 theorems over hand-written executable models (lean/PymtlVerif/Props), native drivers pv_*, Python differential harness (harness/) running /repo in-process',
     }],
     'checks': checks,
     'not_applicable': na,
